@@ -3535,6 +3535,10 @@ class Interp:
             r = self.cond_compare(fr, test, store, refine)
             if r is not None:
                 return r
+        if value is None and isinstance(test, ast.Compare) and refine:
+            r = self.cond_bounds(fr, test, store)
+            if r is not None:
+                return r
         if value is None and isinstance(test, ast.Call):
             r = self.cond_call(fr, test, store, refine)
             if r is not None:
@@ -3877,6 +3881,53 @@ class Interp:
                     return ('headof', expr.value.id, fr.fid)
         return None
 
+    def sym_or_make(self, fr, expr):
+        s_ = self.sym_of(fr, expr)
+        if s_ is None and isinstance(expr, ast.Name) and fr.scope is not None and self.owner_frame(fr, expr.id) is fr:
+            s_ = ('val', fr.fid, expr.id) + pos_of(expr)
+            fr.store.syms[expr.id] = s_
+        return s_ if (isinstance(s_, tuple) and s_ and s_[0] in ('val', 'fld')) else None
+
+    def is_bounded(self, fr, expr):
+        """was the value of this expression compared against program-chosen bounds on both sides on every path to here"""
+        s_ = self.sym_of(fr, expr) if expr is not None else None
+        return s_ is not None and ('lb', s_) in fr.store.facts and ('ub', s_) in fr.store.facts
+
+    @staticmethod
+    def safe_bound(val):
+        return bool(val) and all(a == INT_S or (a[0] == 'c' and a[1] in ('int', 'bool')) for a in val)
+
+    def cond_bounds(self, fr, test, store):
+        """x < c, c <= x <= d ... with program-chosen c, d: which bounds of x hold on the true / false side"""
+        ops = test.ops
+        operands = [test.left] + list(test.comparators)
+        if not all(isinstance(o, (ast.Lt, ast.LtE, ast.Gt, ast.GtE)) for o in ops):
+            return None
+        vals = [self.eval(fr, e) for e in operands]
+        t_facts, f_facts = set(), set()
+        for i, o in enumerate(ops):
+            l, r = operands[i], operands[i + 1]
+            lv, rv = vals[i], vals[i + 1]
+            less = isinstance(o, (ast.Lt, ast.LtE))
+            for subj, sv, other, ov, subj_is_small in ((l, lv, r, rv, less), (r, rv, l, lv, not less)):
+                if self.safe_bound(ov) and not self.safe_bound(sv) and all(is_int_atom(a) or a in (TOP, DATA, FLOAT) for a in sv):
+                    sy = self.sym_or_make(fr, subj)
+                    if sy is None:
+                        continue
+                    # subj (small side) < other  => upper bound when true, lower bound when false (single comparison only)
+                    t_facts.add(('ub' if subj_is_small else 'lb', sy))
+                    if len(ops) == 1:
+                        f_facts.add(('lb' if subj_is_small else 'ub', sy))
+        if not t_facts and not f_facts:
+            return None
+        s_t, s_f = store, store.copy()
+        s_t.facts = s_t.facts | t_facts
+        s_f.facts = s_f.facts | f_facts
+        return True, s_t, True, s_f
+
+    def fact_syms_tags(self, sym):
+        return {sym[1]} if sym[0] == 'fld' else set()
+
     def field_sym(self, fr, name_node, attr):
         try:
             v = self.lookup(fr, name_node.id, name_node)
@@ -4126,18 +4177,20 @@ class Interp:
                 itv = self.eval(fr, gen.iter)
                 mode, elems = self.iteration(fr, itv, gen.iter)
                 gained = frozenset()
+                truths = set()
                 if mode == 'exact' and len(elems) <= MAX_UNROLL:
                     ok = True
                     for e in elems:
                         try:
                             self.assign(fr, gen.target, self.fresh_elem(fr, e, gen), gen)
-                            self.eval(fr, arg.elt)
+                            ev_ = self.eval(fr, arg.elt)
+                            truths |= {self.truth(a_) for a_ in ev_}
                         except Unreachable:
                             ok = False
                             break
                     if ok and elems:
                         gained = fr.store.facts - store0.facts
-                    res = av(BOOL) if elems else av(const(True))
+                    res = av(BOOL) if (elems and truths != {'t'}) else av(const(True))
                 else:
                     if mode == 'exact':
                         x = BOT
@@ -4147,10 +4200,11 @@ class Interp:
                     if elems:
                         try:
                             self.assign(fr, gen.target, self.fresh_elem(fr, elems, gen), gen)
-                            self.eval(fr, arg.elt)
+                            ev_ = self.eval(fr, arg.elt)
+                            truths |= {self.truth(a_) for a_ in ev_}
                         except Unreachable:
-                            pass
-                    res = av(BOOL)
+                            truths.add('?')
+                    res = av(const(True)) if (not elems or truths == {'t'}) else av(BOOL)
             except Unreachable:
                 fr.store = store0
                 raise
@@ -4207,7 +4261,7 @@ class Interp:
                 if s_ is None and isinstance(a, ast.Name) and fr.scope is not None and self.owner_frame(fr, a.id) is fr \
                         and all(is_str_atom(b) or is_int_atom(b) or b == NONE for b in v):
                     # the value this local holds until it is rebound: lets "f(x) returned normally" be remembered for plain values
-                    s_ = ('val', fr.fid, a.id)
+                    s_ = ('val', fr.fid, a.id) + pos_of(a)     # the site tells this value from one the name holds after a rebinding
                     fr.store.syms[a.id] = s_
                 for args in alts:
                     if args.star is not None:
@@ -4257,6 +4311,15 @@ class Interp:
                 v, _ = self.eval_all(fr, node)
                 fr.store.facts = facts0
                 return v
+        if isinstance(f, ast.Name) and f.id in ('isinstance', 'issubclass', 'hasattr', 'callable') and self.is_builtin_name(fr, f.id):
+            r_ = self.cond_call(fr, node, fr.store, False)
+            if r_ is not None:
+                ct, _, cf, _ = r_
+                if ct and not cf:
+                    return av(const(True))
+                if cf and not ct:
+                    return av(const(False))
+                return av(BOOL)
         if isinstance(f, ast.Attribute):
             return self.method_call(fr, node)
         callee = self.eval(fr, f)
@@ -4680,6 +4743,8 @@ class Interp:
 
     def fact_tags(self, fact):
         out = set()
+        if fact[0] in ('lb', 'ub') and isinstance(fact[1], tuple) and fact[1][0] == 'fld':
+            out.add(fact[1][1])
         if fact[0] == 'ok':
             for _, s in fact[2]:
                 if isinstance(s, tuple) and s and s[0] == 'fld':
@@ -5218,6 +5283,16 @@ class Interp:
                 return av(('seq', 'tuple', (av(INT_S if safe_a else INT_U), av(INT_S if (safe_b or safe_a) else INT_U))))
             return av(TOP)
         if name in ('any', 'all'):
+            if x is not None:
+                mode, es = self.iteration(fr, x, node)
+                vals_ = BOT
+                for e in (es if mode == 'exact' else [es]):
+                    vals_ = join(vals_, e)
+                ts = {self.truth(a) for a in vals_}
+                if name == 'any' and ts <= {'f'}:
+                    return av(const(False))     # no element can be true (also when there is none)
+                if name == 'all' and ts <= {'t'}:
+                    return av(const(True))
             return av(BOOL)
         if name == 'ord':
             return av(INT_S)
@@ -5263,6 +5338,16 @@ class Interp:
                 elems = self.fresh_elem(fr, elems, node)
                 if name == 'filter' and pos[0] == av(NONE):
                     return av(('list', erase_tags(frozenset(a for a in elems if a != NONE))))
+                if name == 'filter':
+                    kept = set()
+                    for a in elems:
+                        try:
+                            r_ = self.call_value(fr, frozenset(b for b in pos[0] if b != NONE), Args([av(a)]), node)
+                        except Unreachable:
+                            continue
+                        if {self.truth(b) for b in r_} & {'t', '?'}:
+                            kept.add(a)
+                    return av(('list', erase_tags(frozenset(kept))))
                 r = self.call_value(fr, frozenset(a for a in pos[0] if a != NONE), Args([elems]), node)
                 return av(('list', erase_tags(r if name == 'map' else elems)))
             return av(TOP)
@@ -5486,7 +5571,8 @@ class Interp:
             return av(TOP), None
         if is_int_atom(a):
             if attr == 'to_bytes':
-                if a in (INT_U,) or k == 'idx' or a == ('int', 'fsize'):
+                recv = node.func.value if isinstance(node, ast.Call) and isinstance(node.func, ast.Attribute) else None
+                if (a in (INT_U,) or k == 'idx' or a == ('int', 'fsize')) and not self.is_bounded(fr, recv):
                     self.library_raise(fr, 'OverflowError', node)      # a value the user sizes need not fit the given length
                 return av(BYTES), None
             if attr == 'bit_length':
@@ -6012,8 +6098,12 @@ class Interp:
                 fmt_ok = x is not None and all(is_const(a) and a[1] in ('str', 'bytes') for a in x)
                 vals_user = False
                 if fn == 'pack':
-                    for v in pos[1:]:
+                    exprs = list(node.args[1:]) if isinstance(node, ast.Call) and not any(isinstance(a_, ast.Starred) for a_ in node.args) \
+                        and dotted(node.func) in ('struct.pack',) else []
+                    for i_, v in enumerate(pos[1:]):
                         if self.user_value(v):
+                            if i_ < len(exprs) and all(is_int_atom(a_) for a_ in v) and self.is_bounded(fr, exprs[i_]):
+                                continue        # compared against program-chosen bounds on both sides before being packed
                             vals_user = True
                     if args.star is not None and self.user_value(args.star):
                         vals_user = True
